@@ -81,6 +81,12 @@ def plan(tier: str, seed: int) -> list[dict]:
         for i in range(6 if q else 7):
             specs.append({"name": f"expr-{SHORT[c]}-{i}", "fn": "shard_expr", "context": c, "assignments": 10 if q else 22,
                           "max_depth": 6 if q else 9, "_budget_s": 62 if q else 1150, "_timeout_s": 600 if q else 3000})
+        specs.append({"name": f"typing-{SHORT[c]}", "fn": "shard_typing", "context": c, "samples": 5000 if q else 60000,
+                      "_budget_s": 50 if q else 600, "_timeout_s": 600 if q else 3000})
+        # near misses of the type table: every generated or replaced subtree may lack a property its parent requires
+        # (s: over a non-o argument, a V where a B is asked, ...): what the library must not call sane
+        specs.append({"name": f"nearmiss-{SHORT[c]}-0", "fn": "shard_expr", "context": c, "assignments": 6 if q else 12, "loose_p": 0.9,
+                      "max_depth": 4 if q else 6, "_budget_s": 62 if q else 900, "_timeout_s": 600 if q else 3000})
         specs.append({"name": f"big-{SHORT[c]}", "fn": "shard_big", "context": c, "assignments": 4 if q else 10,
                       "_budget_s": 55 if q else 900, "_timeout_s": 600 if q else 3000})
     return specs
@@ -687,6 +693,13 @@ class ExprChecker:
         sane = bool(ln.is_sane)
         ref_sane = rm.sane_guess(root)
         ctx.stat(f"sanity:lib={'sane' if sane else 'insane'}/bip379-table={'sane' if ref_sane else 'insane'}")
+        if sane and not ref_sane:
+            # the library's sanity is BIP379's less nothing (it adds the resource limits): an expression the table
+            # refuses and the library calls sane is a typing rule given away; what follows below then shows the price
+            why = ("no-type" if not root.t else "not-B" if not root.has("B") else "malleable" if not root.has("m") else
+                   "no-signature" if not root.has("s") else "timelock-mix" if not root.has("k") else "repeated-key")
+            ctx.violation(f"sane-although-bip379-table-refuses:{why}",
+                          f"is_sane is True for {txt[:300]}, which BIP379's type table refuses ({why})", {"context": w.cx, "expression": txt, "origin": origin})
         if not sane:
             ctx.case(f"expr:{sh}:insane:{insane_reason(ln)}", txt, nontrivial=False)
             return False
@@ -1041,7 +1054,7 @@ def _reach():
 def shard_expr(ctx: Ctx) -> None:
     w = World(ctx, ctx.params["context"])
     reach = _reach()
-    g = ExprGen(w)
+    g = ExprGen(w, loose_p=ctx.params.get("loose_p", 0.08))
     ck = ExprChecker(w, ctx.params["assignments"])
     r = ctx.rng
     corpus = load_corpus(w)
@@ -1063,6 +1076,91 @@ def shard_expr(ctx: Ctx) -> None:
             ck.expression(g.fresh(r.choice(depths)), "fresh")
     ctx.stat("meter:op-count-calls", w.meter.n_ops)
     ctx.stat("meter:stack-size-calls", w.meter.n_depth)
+    reach.stop()
+    reach.report(ctx)
+
+
+def shard_typing(ctx: Ctx) -> None:
+    """Small expressions without type direction: every wrapper and combinator over every depth<=1 argument, embedded in a
+    top-level frame that signs. Where BIP379's table gives the whole no sane type, the library must not call it sane
+    (an expression it does call sane goes through every monitor of ExprChecker, the engine included)."""
+    w = World(ctx, ctx.params["context"])
+    reach = _reach()
+    ck = ExprChecker(w, 4)
+    r = ctx.rng
+    cx = w.cx
+    K = list(w.ekeys)
+
+    def N(frag, subs=(), **kw):
+        return rm.Node(frag, cx, tuple(subs), **kw)
+
+    def leaves():
+        ks = r.sample(K, 3)
+        mk = "multi_a" if w.tap else "multi"
+        return [N("pk_k", keys=(ks[0],)), N("pk_h", keys=(ks[1],)), N("c:", [N("pk_k", keys=(ks[2],))]), N("older", k=10), N("after", k=100),
+                N("sha256", data=rm.HASH_FN["sha256"](w.pre[0])), N("0"), N("1"), N(mk, keys=(ks[0], ks[1]), k=1)]
+
+    WR = ["a:", "s:", "c:", "d:", "v:", "j:", "n:"]
+    BIN = ["and_v", "and_b", "or_b", "or_c", "or_d", "or_i"]
+
+    def level(args):
+        out = []
+        for x in args:
+            out += [N(wr, [x]) for wr in WR]
+        for f in BIN:
+            for x in args:
+                for y in args:
+                    out.append(N(f, [x, y]))
+        for x in r.sample(args, min(4, len(args))):
+            for y in r.sample(args, min(4, len(args))):
+                for z in r.sample(args, min(3, len(args))):
+                    out.append(N("andor", [x, y, z]))
+        return out
+
+    def frames(x, key):
+        """Top-level expressions holding x, with a key check beside it so that a signature is needed."""
+        pk = N("c:", [N("pk_k", keys=(key,))])
+        b = x.basic
+        if b == "B" or not b:
+            yield x
+            yield N("and_v", [N("v:", [pk]), x])
+            yield N("and_b", [pk, N("a:", [x])])
+            yield N("and_b", [pk, N("s:", [x])])
+            yield N("or_b", [pk, N("s:", [x])])
+            yield N("thresh", [pk, N("s:", [x]), N("a:", [x])], k=2)
+            yield N("or_d", [pk, x])
+            yield N("andor", [pk, x, N("0")])
+            yield N("and_v", [N("v:", [x]), pk])
+            yield N("j:", [x])
+            yield N("and_v", [N("v:", [pk]), N("d:", [N("v:", [x])])])
+        if b == "W":
+            yield N("and_b", [pk, x])
+            yield N("or_b", [pk, x])
+            yield N("thresh", [pk, x], k=2)
+        if b == "V":
+            yield N("and_v", [x, pk])
+            yield N("or_c", [pk, x])
+        if b == "K":
+            yield N("c:", [x])
+            yield N("and_v", [N("v:", [pk]), N("c:", [x])])
+
+    n = 0
+    while n < ctx.params["samples"] and not ctx.out_of_time():
+        L0 = leaves()
+        L1 = [x for x in level(L0) if x.t]          # typed depth-1 arguments, of every basic type
+        pool = L0 + r.sample(L1, min(len(L1), 60))
+        cands = level(pool)
+        r.shuffle(cands)
+        spare = [k for k in K if all(k not in rm.all_keys(x) for x in L0)] or K
+        for x in cands[:400]:
+            for top in frames(x, r.choice(spare)):
+                n += 1
+                ref_sane = rm.sane_guess(top)
+                ctx.stat("typing:table-sane" if ref_sane else "typing:table-refuses")
+                if ref_sane and r.random() < 0.9:
+                    continue                       # the typed trees are the other shards' business; a tenth keeps this one honest
+                ck.expression(top, "typing-sane" if ref_sane else "typing-near-miss")
+    ctx.exhaustive.append(f"{SHORT[cx]}: every wrapper and binary combinator over the 9 leaves, as an argument of every wrapper and combinator again (sampled), in 11 signing frames")
     reach.stop()
     reach.report(ctx)
 
